@@ -340,7 +340,8 @@ def explore(ctx: Ctx):
                 gym_cases.append(dict(table=t, spec=spec, seed=int(keys[0]) % 1000, actions=list(seq)))
     ctx.run("gymadapter", gym_cases)
     fresh = [dict(kind=k, spec=spec, keys=[int(x) % 100000 for x in key_ints(ctx.seed, 32, salt=3)])
-             for k in ("reset", "step", "gymnax", "gymadapter") for spec in ([], [["TimeLimit", 2]], [["Identity"]])]
+             for k in ("reset", "step", "gymnax", "gymadapter")
+             for spec in ([[], [["TimeLimit", 2]], [["Identity"]]] if k in ("gymnax", "gymadapter") else [sp for sp in wrapx.all_stacks(1, "discrete", "discrete")])]
     ctx.run("fresh", fresh)
     ctx.traces += ctx.transitions
     ctx.require("done", "trunc", "term", "classic-term", "classic-trunc", "gymadapter-done", "reset-multi-init-varied",
